@@ -603,7 +603,7 @@ def cases(rng, tier, worker, nworkers):
                 continue
             if (i // 4 if n == 3 else i) % nworkers == worker:
                 yield {'ops': [dict(o) for o in pre + list(combo)]}
-    n_random = 600 if tier == 'quick' else 24000 // nworkers
+    n_random = 450 if tier == 'quick' else 24000 // nworkers
     for j in range(n_random):
         yield {'ops': _random_case(rng, leaky=(j % 12 == 0))}
 
